@@ -250,6 +250,60 @@ fn hostile(c: &HostileCase) -> CaseResult {
     ok(changed, format!("{name}/{kind}/{outcome}"), hash_of(c))
 }
 
+/// Files of the committed libFuzzer seed corpus (`fuzz/seeds/fuzz_codecs/`) and of the directories named by
+/// `VERIF_FUZZ_CORPUS_C15` (colon-separated; set by `check_c15_thorough.sh` after a campaign): first byte selects the
+/// codec (mod 6), the rest is offered to its `from_bytes` — the same convention as fuzz/fuzz_targets/fuzz_codecs.rs.
+fn corpus_items() -> Vec<HostileCase> {
+    let mut dirs = vec![crate::driver::verif_root().join("fuzz/seeds/fuzz_codecs")];
+    if let Ok(v) = std::env::var("VERIF_FUZZ_CORPUS_C15") {
+        dirs.extend(v.split(':').filter(|d| !d.is_empty()).map(std::path::PathBuf::from));
+    }
+    let mut out = Vec::new();
+    let mut seen = std::collections::BTreeSet::new();
+    for d in dirs {
+        let Ok(rd) = std::fs::read_dir(&d) else { continue };
+        let mut files: Vec<_> = rd.filter_map(|e| e.ok()).map(|e| e.path()).filter(|p| p.is_file()).collect();
+        files.sort();
+        for f in files {
+            if let Ok(b) = std::fs::read(&f)
+                && !b.is_empty()
+                && b.len() <= 65536
+                && seen.insert(b.clone())
+            {
+                out.push(HostileCase { codec: b[0] % 6, seq: Vec::new(), m: Mutation::Raw(b[1..].to_vec()) });
+            }
+        }
+    }
+    out
+}
+
+/// Development aid: `VERIF_C15_DUMP_SEEDS=<dir>` writes valid blocks of a few fixed sequences per codec as libFuzzer seeds.
+fn dump_seeds(dir: &str) {
+    let _ = std::fs::create_dir_all(dir);
+    let seqs: Vec<Vec<u64>> = vec![vec![], vec![0], vec![7, 7, 7, 7, 9], (0..70).map(|i| i * 3).collect(), vec![u64::MAX, 0, 1 << 63, 5], vec![1, 1, 2, 2, 2, 3]];
+    for (k, seq) in seqs.iter().enumerate() {
+        let mut sorted = seq.clone();
+        sorted.sort_unstable();
+        for codec in 0u8..6 {
+            let b: Vec<u8> = match codec {
+                0 => BitPackedInts::pack(seq).to_bytes(),
+                1 => DeltaEncoding::encode(&sorted).to_bytes(),
+                2 => DeltaBitPacked::encode(&sorted).to_bytes(),
+                3 => RunLengthEncoding::encode(seq).to_bytes(),
+                4 => SignedRunLengthEncoding::encode(&seq.iter().map(|x| *x as i64).collect::<Vec<_>>()).to_bytes(),
+                _ => BitVector::from_bools(&seq.iter().map(|x| x & 1 == 1).collect::<Vec<_>>()).to_bytes(),
+            };
+            let mut f = vec![codec];
+            f.extend_from_slice(&b);
+            let _ = std::fs::write(format!("{dir}/c{codec}-s{k}"), &f);
+        }
+    }
+}
+
 pub fn register(r: &mut Run) {
+    if let Ok(dir) = std::env::var("VERIF_C15_DUMP_SEEDS") {
+        dump_seeds(&dir);
+    }
     r.subcheck("from_bytes_hostile", r.cases(30_000, 5_000_000), hostile_case, hostile);
+    r.enumerate("from_bytes_corpus", corpus_items(), false, hostile);
 }
